@@ -1,6 +1,7 @@
 import Mrpro.Lemmas.Dcf2dL
 import Mrpro.Model.Dcf
 import Mrpro.Lemmas.DcfL
+import Mrpro.Lemmas.DcfLayoutL
 /-! # C16 — Voronoi density compensation has the invariances of cell volumes (1-D part)
 
 `dcf1d` is the model of `dcf_1d`.  In two and three dimensions the cell volumes come from qhull
@@ -72,5 +73,35 @@ theorem glue_invariant (pts : List (List ℚ)) {f : List ℚ → List ℚ} (hf :
     (hV : ∀ p ∈ pts, V' (f p) = V p) :
     M.dcfGlue (pts.map f) ((M.uniquePts (pts.map f)).map V') = M.dcfGlue pts ((M.uniquePts pts).map V) :=
   M.dcfGlue_invariant pts hf V V' hV
+
+/-! ### Partially broadcast trajectories (`DcfData.from_traj_voronoi`): which layouts give weights of the degree of a cell volume
+
+`M.DcfLayout` models how the code decomposes a trajectory into 1-D factors and one joint tessellation; the harness checks that
+the exponent measured on the real code (scaling k-space by 2) is `degree` for every layout it draws. -/
+
+/-- **scaling with |a|^d holds exactly for the layouts in which no direction is counted twice** (all 512 layouts) -/
+theorem layout_degree_iff : ∀ a b c d e f g h i : Bool,
+    (M.DcfLayout.degree (M.DcfLayout.ofFlags a b c d e f g h i) = M.DcfLayout.dEnc (M.DcfLayout.ofFlags a b c d e f g h i))
+      ↔ M.DcfLayout.wellFormed (M.DcfLayout.ofFlags a b c d e f g h i) = true := M.DcfLayout.degree_eq_dEnc_iff
+
+/-- the exponent of the code is the sum over the directions of how often each enters the product, and is never too small -/
+theorem layout_degree_sum : ∀ a b c d e f g h i : Bool,
+    M.DcfLayout.degree (M.DcfLayout.ofFlags a b c d e f g h i)
+      = M.DcfLayout.count (M.DcfLayout.ofFlags a b c d e f g h i) 0 + M.DcfLayout.count (M.DcfLayout.ofFlags a b c d e f g h i) 1
+        + M.DcfLayout.count (M.DcfLayout.ofFlags a b c d e f g h i) 2 := M.DcfLayout.degree_eq_sum
+theorem layout_degree_ge : ∀ a b c d e f g h i : Bool,
+    M.DcfLayout.dEnc (M.DcfLayout.ofFlags a b c d e f g h i) ≤ M.DcfLayout.degree (M.DcfLayout.ofFlags a b c d e f g h i) := M.DcfLayout.dEnc_le_degree
+
+/-- dense, fully separable and stack-of-2D layouts are well formed -/
+theorem layout_usual_wellFormed : M.DcfLayout.wellFormed (M.DcfLayout.ofFlags true true true true true true true true true) = true
+    ∧ M.DcfLayout.wellFormed (M.DcfLayout.ofFlags true false false false true false false false true) = true
+    ∧ M.DcfLayout.wellFormed (M.DcfLayout.ofFlags false false false false true true false true true) = true := M.DcfLayout.dense_wellFormed
+
+/-- KNOWN FINDING (witness): a direction alone along one dimension that also varies along another one is counted twice -/
+theorem layout_double_counted_witness :
+    M.DcfLayout.degree (M.DcfLayout.ofFlags true false false false true true true false true) = 4
+    ∧ M.DcfLayout.dEnc (M.DcfLayout.ofFlags true false false false true true true false true) = 3
+    ∧ M.DcfLayout.degree (M.DcfLayout.ofFlags true false true false false false false false false) = 2
+    ∧ M.DcfLayout.dEnc (M.DcfLayout.ofFlags true false true false false false false false false) = 1 := M.DcfLayout.double_counted_witness
 
 end C16
